@@ -11,26 +11,31 @@ exhaust max_pool_size."
 Model: `Pymc/Model/Pooled.lean` (`pymemcache/pool.py` 63–120 under the
 `get_and_release(destroy_on_fail=True)` bracket of every `PooledClient` method, `base.py` 1467–1661).
 
-Reading the statements.  A history is `evs : List (Nat × Body)`: call number `i` (0-based) happens at time
-`evs[i].1` and its body behaves as `evs[i].2`.  All theorems are about runs from the empty pool `{}`:
-* `(run cfg {} (evs.take n)).1` is the pool state after the first `n` calls have returned or raised
+Reading the statements.  A timed history is `evs : List (Nat × Nat × Body)`: call number `i` (0-based) checks
+its client out (`get`) at time `evs[i].1`, its body behaves as `evs[i].2.2`, and the client is handed back
+(`release`, which stamps `_last_used`) at time `evs[i].2.1`.  All theorems are about runs from the empty pool:
+* `(runT cfg {} (evs.take n)).1` is the pool state after the first `n` calls have returned or raised
   (`n = 0`: initial state; `n ≥ evs.length`: final state), i.e. also the state *before* call number `n`;
-* `(run cfg {} evs).2[i]?` is the observation of call number `i`: which pooled client served it and on which
+* `(runT cfg {} evs).2[i]?` is the observation of call number `i`: which pooled client served it and on which
   connection (socket) its commands were sent.
-(`Pooled.run_take_succ`, `Pooled.run_obs` in `Pymc/Proofs/PooledRun.lean` relate both to `call`.)
+(`Pooled.runT_take_succ`, `Pooled.runT_obs` in `Pymc/Proofs/PooledRun.lean` relate both to `callT`.)
+The `…T` theorems are the general ones; the theorems without the suffix are their specialisation to
+instantaneous calls (`run`, histories `List (Nat × Body)`, release time = checkout time), obtained through
+`Pooled.run_eq_runT : run cfg s evs = runT cfg s (evs.map lift)`.
 
-The theorems hold for ALL histories; none except `C09_time_monotone_lastUsed` needs the call times to be
-non-decreasing (the model's truncated subtraction treats a clock that went backwards as "not idle", exactly
-as Python's `now - last_used <= idle_timeout` does with a negative difference).  The hypothesis
-`1 ≤ cfg.maxSize` is needed only where a call must obtain a client (Python's effective `max_size` is ≥ 1:
-`max_size or 2**31`).
+The theorems hold for ALL histories; none except `C09_time_monotone_lastUsed(T)` needs any chronology (the
+model's truncated subtraction treats a clock that went backwards as "not idle", exactly as Python's
+`now - last_used <= idle_timeout` does with a negative difference).  The hypothesis `1 ≤ cfg.maxSize` is
+needed only where a call must obtain a client (Python's effective `max_size` is ≥ 1: `max_size or 2**31`).
 
 The inductive invariant is `Pooled.Inv` (`Pymc/Proofs/PooledInv.lean`): no client checked out, at most one
 free client, `closed` duplicate-free and below `nextConn`, a free client's connection is allocated and not
 closed, every allocated connection is closed or held by a free client, free client ids below `nextClient`.
 
 Nothing had to be weakened.  Remarks on what the exact truth is:
-* reuse after `ok` happens iff `idleTimeout = 0 ∨ t2 - t1 ≤ idleTimeout` (both directions proved:
+* reuse after `ok` happens iff `idleTimeout = 0 ∨ t2 - fin1 ≤ idleTimeout`, where `fin1` is the RELEASE time
+  of the earlier call and `t2` the checkout time of the later one — how long the earlier call took is
+  irrelevant (both directions proved:
   `C09_healthy_reused`, `C09_idle_expired_closed`); the reused connection carries the next call unless that
   call is `rejected` (illegal input, raised before any I/O: `io = none`) — and a `rejected` call *closes the
   healthy connection* its client held (`C09_rejected_conn_closed`), because `destroy_on_fail` does not
@@ -40,69 +45,320 @@ Nothing had to be weakened.  Remarks on what the exact truth is:
 -/
 namespace Pooled
 
-variable (cfg : Cfg) (evs : List (Nat × Body))
+section timed
+variable (cfg : Cfg) (evs : List (Nat × Nat × Body))
 
 /-- C09 (invariant, initial state).  The empty pool satisfies `Inv`. -/
 theorem C09_inv_init : Inv {} := inv_init
 
 /-- C09 (invariant, preservation).  One `PooledClient` call, whatever its time and outcome, and whatever
 `max_pool_size` and `pool_idle_timeout` are, preserves `Inv`. -/
-theorem C09_inv_preserved (s : St) (now : Nat) (b : Body) (h : Inv s) : Inv (call cfg s now b).1 :=
-  inv_call now b h
+theorem C09_inv_preservedT (s : St) (now fin : Nat) (b : Body) (h : Inv s) : Inv (callT cfg s now fin b).1 :=
+  inv_callT now fin b h
 
-/-- non-vacuity of `C09_inv_preserved`: `Inv` holds of a state with an idle client holding an open
+/-- non-vacuity of `C09_inv_preservedT`: `Inv` holds of a state with an idle client holding an open
 connection and two closed connections. -/
 example : Inv ⟨[⟨4, some 2, 7⟩], [], 5, 3, [1, 0]⟩ := by
   constructor <;> simp <;> omega
 
 /-- C09 (invariant, reachability).  `Inv` holds after every call of every run from the empty pool. -/
-theorem C09_inv_reachable (n : Nat) : Inv (run cfg {} (evs.take n)).1 := inv_at evs n
+theorem C09_inv_reachableT (n : Nat) : Inv (runT cfg {} (evs.take n)).1 := inv_at evs n
 
 /-- C09 (1).  After every call of a run from the empty pool — hence also before every call — no client is
 checked out: the number of checked-out connections is back to zero whether the call returned or raised. -/
-theorem C09_used_zero_after_call (n : Nat) : (run cfg {} (evs.take n)).1.used = [] :=
+theorem C09_used_zero_after_callT (n : Nat) : (runT cfg {} (evs.take n)).1.used = [] :=
   (inv_at evs n).used_nil
 
 /-- C09 (auxiliary).  In sequential use the free list never holds more than one client (so the FIFO order
 of `popleft` is immaterial). -/
-theorem C09_free_at_most_one (n : Nat) : (run cfg {} (evs.take n)).1.free.length ≤ 1 :=
+theorem C09_free_at_most_oneT (n : Nat) : (runT cfg {} (evs.take n)).1.free.length ≤ 1 :=
   (inv_at evs n).free_le
 
 /-- C09 (2).  With `max_pool_size ≥ 1`, `get` succeeds at every point of every run, at whatever time it is
 called, and so every call of the run is served by a pooled client: the "Too many objects" branch
 (`client = none`) is never taken, however many calls failed before. -/
-theorem C09_never_exhausts (hmax : 1 ≤ cfg.maxSize) :
-    (∀ n now, (get cfg (run cfg {} (evs.take n)).1 now).2.isSome) ∧
-    (∀ o ∈ (run cfg {} evs).2, o.client.isSome) := by
+theorem C09_never_exhaustsT (hmax : 1 ≤ cfg.maxSize) :
+    (∀ n now, (get cfg (runT cfg {} (evs.take n)).1 now).2.isSome) ∧
+    (∀ o ∈ (runT cfg {} evs).2, o.client.isSome) := by
   have hm : cfg.maxSize ≠ 0 := by omega
-  refine ⟨fun n now => ((call_facts now .ok (inv_at evs n)).2.2.2.2.2.2.1 hm).1, fun o ho => ?_⟩
+  refine ⟨fun n now => ((callT_facts now now .ok (inv_at evs n)).2.2.2.2.2.2.1 hm).1, fun o ho => ?_⟩
   obtain ⟨i, hi⟩ := List.mem_iff_getElem?.mp ho
-  obtain ⟨now, b, -, rfl⟩ := run_obs_inv hi
-  exact ((call_facts now b (inv_at evs i)).2.2.2.2.2.2.1 hm).2
+  obtain ⟨now, fin, b, -, rfl⟩ := runT_obs_inv hi
+  exact ((callT_facts now fin b (inv_at evs i)).2.2.2.2.2.2.1 hm).2
 
-/-- non-vacuity of `C09_never_exhausts`: a pool of size 1 serves three failing calls and a good one, each
+/-- non-vacuity of `C09_never_exhaustsT`: a pool of size 1 serves three failing calls and a good one, each
 with a new client; the hypothesis is needed (a pool of size 0 serves nobody). -/
-example : ((run ⟨1, 5⟩ {} [(0, .fail true), (1, .quitFail false), (2, .rejected), (3, .ok)]).2.map (·.client)
-      = [some 0, some 1, some 2, some 3]) ∧
-    (run ⟨0, 5⟩ {} [(0, .ok)]).2 = [{ client := none, io := none }] := by decide
+example : ((runT ⟨1, 5⟩ {} [(0, 1, .fail true), (1, 1, .quitFail false), (2, 9, .rejected), (9, 9, .ok)]).2.map
+      (·.client) = [some 0, some 1, some 2, some 3]) ∧
+    (runT ⟨0, 5⟩ {} [(0, 0, .ok)]).2 = [{ client := none, io := none }] := by decide
 
 /-- C09 (3, general form).  Once a connection is closed it stays closed, no free client holds it, and no
 later call of the run sends anything on it. -/
-theorem C09_closed_conn_never_used (n k : Nat) (hk : k ∈ (run cfg {} (evs.take n)).1.closed) :
-    (∀ m, n ≤ m → k ∈ (run cfg {} (evs.take m)).1.closed ∧
-      ∀ c ∈ (run cfg {} (evs.take m)).1.free, c.conn ≠ some k) ∧
-    (∀ j o, n ≤ j → (run cfg {} evs).2[j]? = some o → o.io ≠ some k) := by
+theorem C09_closed_conn_never_usedT (n k : Nat) (hk : k ∈ (runT cfg {} (evs.take n)).1.closed) :
+    (∀ m, n ≤ m → k ∈ (runT cfg {} (evs.take m)).1.closed ∧
+      ∀ c ∈ (runT cfg {} (evs.take m)).1.free, c.conn ≠ some k) ∧
+    (∀ j o, n ≤ j → (runT cfg {} evs).2[j]? = some o → o.io ≠ some k) := by
   refine ⟨fun m hm => ?_, fun j o hj ho => closed_never_io inv_init evs hj hk ho⟩
   have hkm := closed_mono inv_init evs hm hk
   exact ⟨hkm, fun c hc hck => (inv_at evs m).free_not_closed c hc k hck hkm⟩
 
-/-- non-vacuity of `C09_closed_conn_never_used`: connection 0 is closed after the first call of this run. -/
-example : 0 ∈ (run ⟨1, 5⟩ {} ([(0, Body.fail true), (1, .ok)].take 1)).1.closed := by decide
+/-- non-vacuity of `C09_closed_conn_never_usedT`: connection 0 is closed after the first call of this run. -/
+example : 0 ∈ (runT ⟨1, 5⟩ {} ([(0, 0, Body.fail true), (1, 2, .ok)].take 1)).1.closed := by decide
 
 /-- C09 (3).  If call number `i` sent its commands on connection `k` and its body raised — whether the
 exception propagated (`fail`), was swallowed by a read method under `ignore_exc` (`failSwallowed`) or came
 from `quit` (`quitFail`) — or was a successful `quit`, then from the moment the call is over `k` is closed,
 no free client holds it, and no later call of the run uses it. -/
+theorem C09_failed_conn_never_reusedT (i now fin : Nat) (b : Body) (o : CallObs) (k : Nat)
+    (he : evs[i]? = some (now, fin, b))
+    (hb : (∃ c, b = .fail c) ∨ (∃ c, b = .failSwallowed c) ∨ b = .quitOk ∨ (∃ c, b = .quitFail c))
+    (ho : (runT cfg {} evs).2[i]? = some o) (hio : o.io = some k) :
+    (∀ n, i < n → k ∈ (runT cfg {} (evs.take n)).1.closed ∧
+      ∀ c ∈ (runT cfg {} (evs.take n)).1.free, c.conn ≠ some k) ∧
+    (∀ j o', i < j → (runT cfg {} evs).2[j]? = some o' → o'.io ≠ some k) := by
+  have hne : b ≠ .ok := by
+    rcases hb with ⟨c, rfl⟩ | ⟨c, rfl⟩ | rfl | ⟨c, rfl⟩ <;> simp
+  rw [runT_obs he] at ho
+  obtain rfl := Option.some.inj ho
+  have hk : k ∈ (runT cfg {} (evs.take (i + 1))).1.closed := by
+    rw [runT_take_succ he]
+    exact (callT_facts now fin b (inv_at evs i)).2.2.2.1 k hio hne
+  have := C09_closed_conn_never_usedT cfg evs (i + 1) k hk
+  exact ⟨fun n hn => this.1 n hn, fun j o' hj => this.2 j o' hj⟩
+
+/-- non-vacuity of `C09_failed_conn_never_reusedT`: a swallowed failure on connection 0 (opened by the first
+call) in call number 1; the same pooled client serves call 2 on a new connection. -/
+example : ∃ (evs : List (Nat × Nat × Body)) (o : CallObs),
+    evs[1]? = some (1, 2, .failSwallowed false) ∧ (runT ⟨1, 5⟩ {} evs).2[1]? = some o ∧ o.io = some 0 ∧
+    (runT ⟨1, 5⟩ {} evs).2[2]? = some ⟨some 0, some 1⟩ :=
+  ⟨[(0, 1, .ok), (1, 2, .failSwallowed false), (2, 3, .ok)], ⟨some 0, some 0⟩, by decide⟩
+
+/-- C09 (3, `rejected`).  If the body of call number `i` raised before touching the socket (illegal input),
+the connection `k` that the client handed out by `get` was holding — a healthy one — is closed when the call
+is over, no free client holds it, and neither this call nor any later one sends anything on it. -/
+theorem C09_rejected_conn_closedT (i now fin : Nat) (c : PClient) (k : Nat)
+    (he : evs[i]? = some (now, fin, .rejected))
+    (hg : (get cfg (runT cfg {} (evs.take i)).1 now).2 = some c) (hc : c.conn = some k) :
+    (∀ n, i < n → k ∈ (runT cfg {} (evs.take n)).1.closed ∧
+      ∀ c ∈ (runT cfg {} (evs.take n)).1.free, c.conn ≠ some k) ∧
+    (∀ j o', i ≤ j → (runT cfg {} evs).2[j]? = some o' → o'.io ≠ some k) := by
+  have hk : k ∈ (runT cfg {} (evs.take (i + 1))).1.closed := by
+    rw [runT_take_succ he]
+    exact (callT_facts now fin .rejected (inv_at evs i)).2.2.2.2.1 c k rfl hg hc
+  have := C09_closed_conn_never_usedT cfg evs (i + 1) k hk
+  refine ⟨fun n hn => this.1 n hn, fun j o' hj ho' => ?_⟩
+  rcases Nat.eq_or_lt_of_le hj with rfl | hlt
+  · rw [runT_obs he] at ho'
+    obtain rfl := Option.some.inj ho'
+    rw [callT_rejected_io]; simp
+  · exact this.2 j o' hlt ho'
+
+/-- non-vacuity of `C09_rejected_conn_closedT`: the second call is rejected while its client holds the
+healthy connection 0, which is thereby closed; the third call opens connection 1 with a new client. -/
+example : ∃ evs : List (Nat × Nat × Body),
+    evs[1]? = some (1, 1, .rejected) ∧
+    (get ⟨1, 5⟩ (runT ⟨1, 5⟩ {} (evs.take 1)).1 1).2 = some ⟨0, some 0, 1⟩ ∧
+    (runT ⟨1, 5⟩ {} evs).1.closed = [0] ∧ (runT ⟨1, 5⟩ {} evs).2[2]? = some ⟨some 1, some 1⟩ :=
+  ⟨[(0, 1, .ok), (1, 1, .rejected), (2, 3, .ok)], by decide⟩
+
+/-- C09 (4).  If call number `i` returned normally (`ok`) having used connection `k` and was RELEASED at time
+`fin1`, and the next call checks out at `t2` with `pool_idle_timeout = 0` (never expires) or
+`t2 - fin1 ≤ pool_idle_timeout`, then the next call is served by the same pooled client, `get` closes nothing,
+`k` is still open, nothing is allocated (`nextConn`, `nextClient` unchanged: no reconnect, no new client), and
+the commands go out on `k` — unless the next body is `rejected`, which by definition sends nothing.  The
+checkout time `t1` of call `i` does not occur in the hypothesis: a slow call does not count as idle time. -/
+theorem C09_healthy_reusedT (i t1 fin1 t2 fin2 : Nat) (b2 : Body) (o1 : CallObs) (k : Nat)
+    (h1 : evs[i]? = some (t1, fin1, .ok)) (h2 : evs[i + 1]? = some (t2, fin2, b2))
+    (ho1 : (runT cfg {} evs).2[i]? = some o1) (hk : o1.io = some k)
+    (hgap : cfg.idleTimeout = 0 ∨ t2 - fin1 ≤ cfg.idleTimeout) :
+    ∃ o2, (runT cfg {} evs).2[i + 1]? = some o2 ∧
+      o2.client = o1.client ∧
+      (b2 ≠ .rejected → o2.io = some k) ∧ (b2 = .rejected → o2.io = none) ∧
+      (get cfg (runT cfg {} (evs.take (i + 1))).1 t2).1.closed = (runT cfg {} (evs.take (i + 1))).1.closed ∧
+      k ∉ (runT cfg {} (evs.take (i + 1))).1.closed ∧
+      (runT cfg {} (evs.take (i + 2))).1.nextConn = (runT cfg {} (evs.take (i + 1))).1.nextConn ∧
+      (runT cfg {} (evs.take (i + 2))).1.nextClient = (runT cfg {} (evs.take (i + 1))).1.nextClient := by
+  rw [runT_obs h1] at ho1
+  obtain rfl := Option.some.inj ho1
+  obtain ⟨id, hid, hfree⟩ := (callT_facts t1 fin1 .ok (inv_at evs i)).2.2.2.2.2.2.2 k rfl hk
+  rw [← runT_take_succ h1] at hfree
+  have hI := inv_at (cfg := cfg) evs (i + 1)
+  obtain ⟨-, r2, r3, r4, r5, r6, r7⟩ := callT_reuse t2 fin2 b2 hI hfree (clock_fresh hgap)
+  refine ⟨_, runT_obs h2, ?_, r3, r4, r7, ?_, ?_, ?_⟩
+  · rw [r2, hid]
+  · exact hI.free_not_closed _ (by rw [hfree]; exact List.mem_singleton.mpr rfl) k rfl
+  · rw [runT_take_succ h2]; exact r5
+  · rw [runT_take_succ h2]; exact r6
+
+/-- non-vacuity of `C09_healthy_reusedT`, with a slow call: timeout 5; the first call checks out at 0 and
+takes 100 ticks (released at 100), the second checks out at 103: gap after release 3 ≤ 5, so connection 0 is
+reused although 103 ticks passed since the first checkout; the third checks out at 110 = 105 + 5 (gap = timeout). -/
+example : ∃ (cfg : Cfg) (evs : List (Nat × Nat × Body)) (o1 : CallObs),
+    evs[0]? = some (0, 100, .ok) ∧ evs[1]? = some (103, 105, .ok) ∧
+    (runT cfg {} evs).2[0]? = some o1 ∧ o1.io = some 0 ∧
+    (cfg.idleTimeout = 0 ∨ 103 - 100 ≤ cfg.idleTimeout) ∧ cfg.idleTimeout < 100 - 0 ∧
+    (runT cfg {} evs).2 = [⟨some 0, some 0⟩, ⟨some 0, some 0⟩, ⟨some 0, some 0⟩] ∧
+    (runT cfg {} evs).1.nextConn = 1 :=
+  ⟨⟨1, 5⟩, [(0, 100, .ok), (103, 105, .ok), (110, 111, .fail false)], ⟨some 0, some 0⟩, by decide⟩
+
+/-- C09 (5).  If call number `i` returned normally having used connection `k` and was released at `fin1`, and
+the next call checks out at `t2` with `t2 - fin1 > pool_idle_timeout ≠ 0`, then the `get` of that next call
+closes `k`; `k` stays closed and is never used again by that call or any later one; and (given
+`max_pool_size ≥ 1`) the next call is served by a brand-new pooled client which sends on a brand-new connection
+(`= nextConn` before the call) if its body gets as far as connecting, and on none otherwise. -/
+theorem C09_idle_expired_closedT (i t1 fin1 t2 fin2 : Nat) (b2 : Body) (o1 : CallObs) (k : Nat)
+    (h1 : evs[i]? = some (t1, fin1, .ok)) (h2 : evs[i + 1]? = some (t2, fin2, b2))
+    (ho1 : (runT cfg {} evs).2[i]? = some o1) (hk : o1.io = some k)
+    (h0 : cfg.idleTimeout ≠ 0) (hgap : cfg.idleTimeout < t2 - fin1) :
+    (get cfg (runT cfg {} (evs.take (i + 1))).1 t2).1.closed = (runT cfg {} (evs.take (i + 1))).1.closed ++ [k] ∧
+    (∀ n, i + 2 ≤ n → k ∈ (runT cfg {} (evs.take n)).1.closed ∧
+      ∀ c ∈ (runT cfg {} (evs.take n)).1.free, c.conn ≠ some k) ∧
+    (∀ j o, i < j → (runT cfg {} evs).2[j]? = some o → o.io ≠ some k) ∧
+    (1 ≤ cfg.maxSize → ∃ o2, (runT cfg {} evs).2[i + 1]? = some o2 ∧
+      o2.client = some (runT cfg {} (evs.take (i + 1))).1.nextClient ∧ o2.client ≠ o1.client ∧
+      ((b2 = .ok ∨ b2 = .quitOk ∨ b2 = .fail true ∨ b2 = .failSwallowed true ∨ b2 = .quitFail true) →
+        o2.io = some (runT cfg {} (evs.take (i + 1))).1.nextConn ∧
+        (runT cfg {} (evs.take (i + 2))).1.nextConn = (runT cfg {} (evs.take (i + 1))).1.nextConn + 1) ∧
+      ((b2 = .rejected ∨ b2 = .fail false ∨ b2 = .failSwallowed false ∨ b2 = .quitFail false) →
+        o2.io = none ∧
+        (runT cfg {} (evs.take (i + 2))).1.nextConn = (runT cfg {} (evs.take (i + 1))).1.nextConn)) := by
+  rw [runT_obs h1] at ho1
+  obtain rfl := Option.some.inj ho1
+  obtain ⟨id, hid, hfree⟩ := (callT_facts t1 fin1 .ok (inv_at evs i)).2.2.2.2.2.2.2 k rfl hk
+  rw [← runT_take_succ h1] at hfree
+  have hI := inv_at (cfg := cfg) evs (i + 1)
+  obtain ⟨e1, -, e3, e4, e5⟩ := callT_expire t2 fin2 b2 hI hfree (clock_expired h0 hgap)
+  have hk2 : k ∈ (runT cfg {} (evs.take (i + 2))).1.closed := by rw [runT_take_succ h2]; exact e3
+  have hnever := C09_closed_conn_never_usedT cfg evs (i + 2) k hk2
+  refine ⟨e1, hnever.1, fun j o hj ho => ?_, fun hmax => ?_⟩
+  · rcases Nat.eq_or_lt_of_le (Nat.succ_le_of_lt hj) with rfl | hlt
+    · rw [runT_obs h2] at ho
+      obtain rfl := Option.some.inj ho
+      exact e4
+    · exact hnever.2 j o hlt ho
+  · obtain ⟨-, f2, f3, f4⟩ := e5 (by omega)
+    refine ⟨_, runT_obs h2, f2, ?_, ?_, ?_⟩
+    · rw [f2, hid]
+      have := hI.free_id_lt _ (by rw [hfree]; exact List.mem_singleton.mpr rfl)
+      simp only at this
+      intro h; have := Option.some.inj h; omega
+    · rw [runT_take_succ h2]; exact f3
+    · rw [runT_take_succ h2]; exact f4
+
+/-- non-vacuity of `C09_idle_expired_closedT`: timeout 5, first call released at 2, second checks out at 8;
+connection 0 is closed by the second `get` and the second call uses client 1 on connection 1. -/
+example : ∃ (cfg : Cfg) (evs : List (Nat × Nat × Body)) (o1 : CallObs),
+    evs[0]? = some (0, 2, .ok) ∧ evs[1]? = some (8, 9, .ok) ∧
+    (runT cfg {} evs).2[0]? = some o1 ∧ o1.io = some 0 ∧
+    cfg.idleTimeout ≠ 0 ∧ cfg.idleTimeout < 8 - 2 ∧ 1 ≤ cfg.maxSize ∧
+    (runT cfg {} evs).2 = [⟨some 0, some 0⟩, ⟨some 1, some 1⟩] ∧ (runT cfg {} evs).1.closed = [0] :=
+  ⟨⟨1, 5⟩, [(0, 2, .ok), (8, 9, .ok)], ⟨some 0, some 0⟩, by decide⟩
+
+/-- C09 (6a).  No connection is closed twice: `closed` never lists a connection id twice. -/
+theorem C09_closed_at_most_onceT (n : Nat) : (runT cfg {} (evs.take n)).1.closed.Nodup :=
+  (inv_at evs n).closed_nodup
+
+/-- C09 (6b, accounting).  After every call, the connections ever opened are exactly the ids below
+`nextConn`, and each of them is exactly one of: held by the (single) free client, or closed.  With
+`C09_used_zero_after_callT` and `C09_free_at_most_oneT`: no connection leaks, at most one is open. -/
+theorem C09_no_leakT (n k : Nat) :
+    (k < (runT cfg {} (evs.take n)).1.nextConn ↔
+      (k ∈ (runT cfg {} (evs.take n)).1.closed ∨ ∃ c ∈ (runT cfg {} (evs.take n)).1.free, c.conn = some k)) ∧
+    ¬ (k ∈ (runT cfg {} (evs.take n)).1.closed ∧ ∃ c ∈ (runT cfg {} (evs.take n)).1.free, c.conn = some k) := by
+  have hI := inv_at (cfg := cfg) evs n
+  refine ⟨⟨hI.covered k, ?_⟩, ?_⟩
+  · rintro (h | ⟨c, hc, hck⟩)
+    · exact hI.closed_lt k h
+    · exact hI.free_conn_lt c hc k hck
+  · rintro ⟨h, c, hc, hck⟩
+    exact hI.free_not_closed c hc k hck h
+
+/-- C09 (7).  Chronology hypothesis: each call is released no later than the next one checks out
+(`fin_i ≤ now_{i+1}`; `now_i ≤ fin_i` is not even needed).  Then when call number `i` checks out at time `now`
+every free client was last used at a pool-clock value `≤` the current one, so the truncated subtraction in the
+idle test is the true difference.  (In fact `lastUsed` is the clock value of the previous call's release.) -/
+theorem C09_time_monotone_lastUsedT
+    (hchron : ∀ j a b, evs[j]? = some a → evs[j + 1]? = some b → a.2.1 ≤ b.1)
+    (i now fin : Nat) (b : Body) (he : evs[i]? = some (now, fin, b)) :
+    ∀ c ∈ (runT cfg {} (evs.take i)).1.free,
+      c.lastUsed ≤ clock cfg now ∧ (clock cfg now - c.lastUsed) + c.lastUsed = clock cfg now := by
+  intro c hc
+  suffices h : c.lastUsed ≤ clock cfg now from ⟨h, by omega⟩
+  cases i with
+  | zero => simp [runT] at hc
+  | succ j =>
+    obtain ⟨hi, -⟩ := List.getElem?_eq_some_iff.mp he
+    have hj : j < evs.length := by omega
+    have hej : evs[j]? = some (evs[j].1, evs[j].2.1, evs[j].2.2) := by simp [hj]
+    rw [runT_take_succ hej] at hc
+    rw [(callT_facts evs[j].1 evs[j].2.1 evs[j].2.2 (inv_at evs j)).2.2.2.2.2.1 c hc]
+    exact clock_mono cfg (hchron j _ _ hej he)
+
+/-- non-vacuity of `C09_time_monotone_lastUsedT`: a chronological history whose state before call 1 has a
+free client stamped with the release time 2; and why the hypothesis is needed: if the next checkout (at 3)
+precedes the recorded release (at 4), `lastUsed` exceeds `now`. -/
+example : (∀ j a b, ([(0, 2, Body.ok), (3, 4, .ok)] : List (Nat × Nat × Body))[j]? = some a →
+      ([(0, 2, Body.ok), (3, 4, .ok)] : List (Nat × Nat × Body))[j + 1]? = some b → a.2.1 ≤ b.1) ∧
+    (runT ⟨1, 5⟩ {} ([(0, 2, Body.ok), (3, 4, .ok)].take 1)).1.free = [⟨0, some 0, 2⟩] ∧
+    (runT ⟨1, 5⟩ {} ([(0, 4, Body.ok), (3, 5, .ok)].take 1)).1.free = [⟨0, some 0, 4⟩] := by
+  refine ⟨?_, by decide, by decide⟩
+  intro j a b ha hb
+  match j with
+  | 0 => simp at ha hb; subst ha hb; decide
+  | j + 1 => simp at hb
+
+end timed
+
+/-! ## Instantaneous calls (`run`): the special case `fin = now` of the theorems above
+(`run cfg s evs = runT cfg s (evs.map lift)`, `Pooled.run_eq_runT`) -/
+section instantaneous
+variable (cfg : Cfg) (evs : List (Nat × Body))
+
+/-- C09 (invariant, preservation), instantaneous call. -/
+theorem C09_inv_preserved (s : St) (now : Nat) (b : Body) (h : Inv s) : Inv (call cfg s now b).1 :=
+  inv_call now b h
+
+/-- non-vacuity of `C09_inv_preserved`: see the example after `C09_inv_preservedT`. -/
+example : Inv ⟨[⟨4, none, 7⟩], [], 5, 3, [1, 0, 2]⟩ := by
+  constructor <;> simp <;> omega
+
+/-- C09 (invariant, reachability) for `run`. -/
+theorem C09_inv_reachable (n : Nat) : Inv (run cfg {} (evs.take n)).1 := by
+  rw [run_take_eq]; exact C09_inv_reachableT cfg _ n
+
+/-- C09 (1) for `run`: no client is checked out after (= before) any call. -/
+theorem C09_used_zero_after_call (n : Nat) : (run cfg {} (evs.take n)).1.used = [] := by
+  rw [run_take_eq]; exact C09_used_zero_after_callT cfg _ n
+
+/-- C09 (auxiliary) for `run`: at most one free client. -/
+theorem C09_free_at_most_one (n : Nat) : (run cfg {} (evs.take n)).1.free.length ≤ 1 := by
+  rw [run_take_eq]; exact C09_free_at_most_oneT cfg _ n
+
+/-- C09 (2) for `run`: with `max_pool_size ≥ 1` every `get` succeeds and every call is served. -/
+theorem C09_never_exhausts (hmax : 1 ≤ cfg.maxSize) :
+    (∀ n now, (get cfg (run cfg {} (evs.take n)).1 now).2.isSome) ∧
+    (∀ o ∈ (run cfg {} evs).2, o.client.isSome) := by
+  simp only [run_take_eq]; simp only [run_eq_runT]
+  exact C09_never_exhaustsT cfg _ hmax
+
+/-- non-vacuity of `C09_never_exhausts`. -/
+example : ((run ⟨1, 5⟩ {} [(0, .fail true), (1, .quitFail false), (2, .rejected), (3, .ok)]).2.map (·.client)
+      = [some 0, some 1, some 2, some 3]) ∧
+    (run ⟨0, 5⟩ {} [(0, .ok)]).2 = [{ client := none, io := none }] := by decide
+
+/-- C09 (3, general form) for `run`: a closed connection stays closed, is held by no free client and
+carries no later call. -/
+theorem C09_closed_conn_never_used (n k : Nat) (hk : k ∈ (run cfg {} (evs.take n)).1.closed) :
+    (∀ m, n ≤ m → k ∈ (run cfg {} (evs.take m)).1.closed ∧
+      ∀ c ∈ (run cfg {} (evs.take m)).1.free, c.conn ≠ some k) ∧
+    (∀ j o, n ≤ j → (run cfg {} evs).2[j]? = some o → o.io ≠ some k) := by
+  simp only [run_take_eq] at hk ⊢; simp only [run_eq_runT]
+  exact C09_closed_conn_never_usedT cfg _ n k hk
+
+/-- non-vacuity of `C09_closed_conn_never_used`. -/
+example : 0 ∈ (run ⟨1, 5⟩ {} ([(0, Body.fail true), (1, .ok)].take 1)).1.closed := by decide
+
+/-- C09 (3) for `run`: the connection of a failed (or quit) call is closed and never used again. -/
 theorem C09_failed_conn_never_reused (i now : Nat) (b : Body) (o : CallObs) (k : Nat)
     (he : evs[i]? = some (now, b))
     (hb : (∃ c, b = .fail c) ∨ (∃ c, b = .failSwallowed c) ∨ b = .quitOk ∨ (∃ c, b = .quitFail c))
@@ -110,56 +366,33 @@ theorem C09_failed_conn_never_reused (i now : Nat) (b : Body) (o : CallObs) (k :
     (∀ n, i < n → k ∈ (run cfg {} (evs.take n)).1.closed ∧
       ∀ c ∈ (run cfg {} (evs.take n)).1.free, c.conn ≠ some k) ∧
     (∀ j o', i < j → (run cfg {} evs).2[j]? = some o' → o'.io ≠ some k) := by
-  have hne : b ≠ .ok := by
-    rcases hb with ⟨c, rfl⟩ | ⟨c, rfl⟩ | rfl | ⟨c, rfl⟩ <;> simp
-  rw [run_obs he] at ho
-  obtain rfl := Option.some.inj ho
-  have hk : k ∈ (run cfg {} (evs.take (i + 1))).1.closed := by
-    rw [run_take_succ he]
-    exact (call_facts now b (inv_at evs i)).2.2.2.1 k hio hne
-  have := C09_closed_conn_never_used cfg evs (i + 1) k hk
-  exact ⟨fun n hn => this.1 n hn, fun j o' hj => this.2 j o' hj⟩
+  simp only [run_take_eq]; simp only [run_eq_runT] at ho ⊢
+  exact C09_failed_conn_never_reusedT cfg _ i now now b o k (lift_get he) hb ho hio
 
-/-- non-vacuity of `C09_failed_conn_never_reused`: a swallowed failure on connection 0 (opened by the first
-call) in call number 1; the same pooled client serves call 2 on a new connection. -/
+/-- non-vacuity of `C09_failed_conn_never_reused`. -/
 example : ∃ (evs : List (Nat × Body)) (o : CallObs),
     evs[1]? = some (1, .failSwallowed false) ∧ (run ⟨1, 5⟩ {} evs).2[1]? = some o ∧ o.io = some 0 ∧
     (run ⟨1, 5⟩ {} evs).2[2]? = some ⟨some 0, some 1⟩ :=
   ⟨[(0, .ok), (1, .failSwallowed false), (2, .ok)], ⟨some 0, some 0⟩, by decide⟩
 
-/-- C09 (3, `rejected`).  If the body of call number `i` raised before touching the socket (illegal input),
-the connection `k` that the client handed out by `get` was holding — a healthy one — is closed when the call
-is over, no free client holds it, and neither this call nor any later one sends anything on it. -/
+/-- C09 (3, `rejected`) for `run`. -/
 theorem C09_rejected_conn_closed (i now : Nat) (c : PClient) (k : Nat)
     (he : evs[i]? = some (now, .rejected))
     (hg : (get cfg (run cfg {} (evs.take i)).1 now).2 = some c) (hc : c.conn = some k) :
     (∀ n, i < n → k ∈ (run cfg {} (evs.take n)).1.closed ∧
       ∀ c ∈ (run cfg {} (evs.take n)).1.free, c.conn ≠ some k) ∧
     (∀ j o', i ≤ j → (run cfg {} evs).2[j]? = some o' → o'.io ≠ some k) := by
-  have hk : k ∈ (run cfg {} (evs.take (i + 1))).1.closed := by
-    rw [run_take_succ he]
-    exact (call_facts now .rejected (inv_at evs i)).2.2.2.2.1 c k rfl hg hc
-  have := C09_closed_conn_never_used cfg evs (i + 1) k hk
-  refine ⟨fun n hn => this.1 n hn, fun j o' hj ho' => ?_⟩
-  rcases Nat.eq_or_lt_of_le hj with rfl | hlt
-  · rw [run_obs he] at ho'
-    obtain rfl := Option.some.inj ho'
-    rw [call_rejected_io]; simp
-  · exact this.2 j o' hlt ho'
+  simp only [run_take_eq] at hg ⊢; simp only [run_eq_runT]
+  exact C09_rejected_conn_closedT cfg _ i now now c k (lift_get he) hg hc
 
-/-- non-vacuity of `C09_rejected_conn_closed`: the second call is rejected while its client holds the
-healthy connection 0, which is thereby closed; the third call opens connection 1 with a new client. -/
+/-- non-vacuity of `C09_rejected_conn_closed`. -/
 example : ∃ evs : List (Nat × Body),
     evs[1]? = some (1, .rejected) ∧
     (get ⟨1, 5⟩ (run ⟨1, 5⟩ {} (evs.take 1)).1 1).2 = some ⟨0, some 0, 0⟩ ∧
     (run ⟨1, 5⟩ {} evs).1.closed = [0] ∧ (run ⟨1, 5⟩ {} evs).2[2]? = some ⟨some 1, some 1⟩ :=
   ⟨[(0, .ok), (1, .rejected), (2, .ok)], by decide⟩
 
-/-- C09 (4).  If call number `i` returned normally (`ok`) having used connection `k` at time `t1`, and the
-next call comes at `t2` with `pool_idle_timeout = 0` (never expires) or `t2 - t1 ≤ pool_idle_timeout`, then
-the next call is served by the same pooled client, `get` closes nothing, `k` is still open, nothing is
-allocated (`nextConn`, `nextClient` unchanged: no reconnect, no new client), and the commands go out on `k` —
-unless the next body is `rejected`, which by definition sends nothing. -/
+/-- C09 (4) for `run` (release time = checkout time `t1`). -/
 theorem C09_healthy_reused (i t1 t2 : Nat) (b2 : Body) (o1 : CallObs) (k : Nat)
     (h1 : evs[i]? = some (t1, .ok)) (h2 : evs[i + 1]? = some (t2, b2))
     (ho1 : (run cfg {} evs).2[i]? = some o1) (hk : o1.io = some k)
@@ -171,17 +404,8 @@ theorem C09_healthy_reused (i t1 t2 : Nat) (b2 : Body) (o1 : CallObs) (k : Nat)
       k ∉ (run cfg {} (evs.take (i + 1))).1.closed ∧
       (run cfg {} (evs.take (i + 2))).1.nextConn = (run cfg {} (evs.take (i + 1))).1.nextConn ∧
       (run cfg {} (evs.take (i + 2))).1.nextClient = (run cfg {} (evs.take (i + 1))).1.nextClient := by
-  rw [run_obs h1] at ho1
-  obtain rfl := Option.some.inj ho1
-  obtain ⟨id, hid, hfree⟩ := (call_facts t1 .ok (inv_at evs i)).2.2.2.2.2.2.2 k rfl hk
-  rw [← run_take_succ h1] at hfree
-  have hI := inv_at (cfg := cfg) evs (i + 1)
-  obtain ⟨-, r2, r3, r4, r5, r6, r7⟩ := call_reuse t2 b2 hI hfree (clock_fresh hgap)
-  refine ⟨_, run_obs h2, ?_, r3, r4, r7, ?_, ?_, ?_⟩
-  · rw [r2, hid]
-  · exact hI.free_not_closed _ (by rw [hfree]; exact List.mem_singleton.mpr rfl) k rfl
-  · rw [run_take_succ h2]; exact r5
-  · rw [run_take_succ h2]; exact r6
+  simp only [run_take_eq]; simp only [run_eq_runT] at ho1 ⊢
+  exact C09_healthy_reusedT cfg _ i t1 t1 t2 t2 b2 o1 k (lift_get h1) (lift_get h2) ho1 hk hgap
 
 /-- non-vacuity of `C09_healthy_reused`: connection 0 is used by calls at times 0, 5 (gap = timeout) and 7. -/
 example : ∃ (cfg : Cfg) (evs : List (Nat × Body)) (o1 : CallObs),
@@ -190,11 +414,7 @@ example : ∃ (cfg : Cfg) (evs : List (Nat × Body)) (o1 : CallObs),
     (run cfg {} evs).2 = [⟨some 0, some 0⟩, ⟨some 0, some 0⟩, ⟨some 0, some 0⟩] :=
   ⟨⟨1, 5⟩, [(0, .ok), (5, .ok), (7, .fail false)], ⟨some 0, some 0⟩, by decide⟩
 
-/-- C09 (5).  If call number `i` returned normally having used connection `k` at time `t1`, and the next
-call comes at `t2` with `t2 - t1 > pool_idle_timeout ≠ 0`, then the `get` of that next call closes `k`;
-`k` stays closed and is never used again by that call or any later one; and (given `max_pool_size ≥ 1`) the
-next call is served by a brand-new pooled client which sends on a brand-new connection
-(`= nextConn` before the call) if its body gets as far as connecting, and on none otherwise. -/
+/-- C09 (5) for `run` (release time = checkout time `t1`). -/
 theorem C09_idle_expired_closed (i t1 t2 : Nat) (b2 : Body) (o1 : CallObs) (k : Nat)
     (h1 : evs[i]? = some (t1, .ok)) (h2 : evs[i + 1]? = some (t2, b2))
     (ho1 : (run cfg {} evs).2[i]? = some o1) (hk : o1.io = some k)
@@ -211,82 +431,50 @@ theorem C09_idle_expired_closed (i t1 t2 : Nat) (b2 : Body) (o1 : CallObs) (k : 
       ((b2 = .rejected ∨ b2 = .fail false ∨ b2 = .failSwallowed false ∨ b2 = .quitFail false) →
         o2.io = none ∧
         (run cfg {} (evs.take (i + 2))).1.nextConn = (run cfg {} (evs.take (i + 1))).1.nextConn)) := by
-  rw [run_obs h1] at ho1
-  obtain rfl := Option.some.inj ho1
-  obtain ⟨id, hid, hfree⟩ := (call_facts t1 .ok (inv_at evs i)).2.2.2.2.2.2.2 k rfl hk
-  rw [← run_take_succ h1] at hfree
-  have hI := inv_at (cfg := cfg) evs (i + 1)
-  obtain ⟨e1, -, e3, e4, e5⟩ := call_expire t2 b2 hI hfree (clock_expired h0 hgap)
-  have hk2 : k ∈ (run cfg {} (evs.take (i + 2))).1.closed := by rw [run_take_succ h2]; exact e3
-  have hnever := C09_closed_conn_never_used cfg evs (i + 2) k hk2
-  refine ⟨e1, hnever.1, fun j o hj ho => ?_, fun hmax => ?_⟩
-  · rcases Nat.eq_or_lt_of_le (Nat.succ_le_of_lt hj) with rfl | hlt
-    · rw [run_obs h2] at ho
-      obtain rfl := Option.some.inj ho
-      exact e4
-    · exact hnever.2 j o hlt ho
-  · obtain ⟨-, f2, f3, f4⟩ := e5 (by omega)
-    refine ⟨_, run_obs h2, f2, ?_, ?_, ?_⟩
-    · rw [f2, hid]
-      have := hI.free_id_lt _ (by rw [hfree]; exact List.mem_singleton.mpr rfl)
-      simp only at this
-      intro h; have := Option.some.inj h; omega
-    · rw [run_take_succ h2]; exact f3
-    · rw [run_take_succ h2]; exact f4
+  simp only [run_take_eq]; simp only [run_eq_runT] at ho1 ⊢
+  exact C09_idle_expired_closedT cfg _ i t1 t1 t2 t2 b2 o1 k (lift_get h1) (lift_get h2) ho1 hk h0 hgap
 
-/-- non-vacuity of `C09_idle_expired_closed`: timeout 5, calls at times 0 and 6; connection 0 is closed by
-the second `get` and the second call uses client 1 on connection 1. -/
+/-- non-vacuity of `C09_idle_expired_closed`: timeout 5, calls at times 0 and 6. -/
 example : ∃ (cfg : Cfg) (evs : List (Nat × Body)) (o1 : CallObs),
     evs[0]? = some (0, .ok) ∧ evs[1]? = some (6, .ok) ∧ (run cfg {} evs).2[0]? = some o1 ∧ o1.io = some 0 ∧
     cfg.idleTimeout ≠ 0 ∧ cfg.idleTimeout < 6 - 0 ∧ 1 ≤ cfg.maxSize ∧
     (run cfg {} evs).2 = [⟨some 0, some 0⟩, ⟨some 1, some 1⟩] ∧ (run cfg {} evs).1.closed = [0] :=
   ⟨⟨1, 5⟩, [(0, .ok), (6, .ok)], ⟨some 0, some 0⟩, by decide⟩
 
-/-- C09 (6a).  No connection is closed twice: `closed` never lists a connection id twice. -/
-theorem C09_closed_at_most_once (n : Nat) : (run cfg {} (evs.take n)).1.closed.Nodup :=
-  (inv_at evs n).closed_nodup
+/-- C09 (6a) for `run`: no connection is closed twice. -/
+theorem C09_closed_at_most_once (n : Nat) : (run cfg {} (evs.take n)).1.closed.Nodup := by
+  rw [run_take_eq]; exact C09_closed_at_most_onceT cfg _ n
 
-/-- C09 (6b, accounting).  After every call, the connections ever opened are exactly the ids below
-`nextConn`, and each of them is exactly one of: held by the (single) free client, or closed.  With
-`C09_used_zero_after_call` and `C09_free_at_most_one`: no connection leaks, at most one is open. -/
+/-- C09 (6b, accounting) for `run`. -/
 theorem C09_no_leak (n k : Nat) :
     (k < (run cfg {} (evs.take n)).1.nextConn ↔
       (k ∈ (run cfg {} (evs.take n)).1.closed ∨ ∃ c ∈ (run cfg {} (evs.take n)).1.free, c.conn = some k)) ∧
     ¬ (k ∈ (run cfg {} (evs.take n)).1.closed ∧ ∃ c ∈ (run cfg {} (evs.take n)).1.free, c.conn = some k) := by
-  have hI := inv_at (cfg := cfg) evs n
-  refine ⟨⟨hI.covered k, ?_⟩, ?_⟩
-  · rintro (h | ⟨c, hc, hck⟩)
-    · exact hI.closed_lt k h
-    · exact hI.free_conn_lt c hc k hck
-  · rintro ⟨h, c, hc, hck⟩
-    exact hI.free_not_closed c hc k hck h
+  rw [run_take_eq]; exact C09_no_leakT cfg _ n k
 
-/-- C09 (7).  With non-decreasing call times, when call number `i` starts at time `now` every free client
-was last used at a pool-clock value `≤` the current one, so the truncated subtraction in the idle test is
-the true difference.  (In fact `lastUsed` is the clock value of the previous call's release.) -/
+/-- C09 (7) for `run`: with non-decreasing call times every free client's `lastUsed` is `≤` the pool clock
+at the next checkout. -/
 theorem C09_time_monotone_lastUsed (hmono : evs.Pairwise (fun a b => a.1 ≤ b.1)) (i now : Nat) (b : Body)
     (he : evs[i]? = some (now, b)) :
     ∀ c ∈ (run cfg {} (evs.take i)).1.free,
       c.lastUsed ≤ clock cfg now ∧ (clock cfg now - c.lastUsed) + c.lastUsed = clock cfg now := by
-  intro c hc
-  suffices h : c.lastUsed ≤ clock cfg now from ⟨h, by omega⟩
-  cases i with
-  | zero => simp [run] at hc
-  | succ j =>
-    obtain ⟨hi, hev⟩ := List.getElem?_eq_some_iff.mp he
-    have hj : j < evs.length := by omega
-    have hej : evs[j]? = some (evs[j].1, evs[j].2) := by simp [hj]
-    rw [run_take_succ hej] at hc
-    rw [(call_facts evs[j].1 evs[j].2 (inv_at evs j)).2.2.2.2.2.1 c hc]
-    apply clock_mono
-    have := List.pairwise_iff_getElem.mp hmono j (j + 1) hj hi (Nat.lt_succ_self j)
-    rw [hev] at this
-    exact this
+  rw [run_take_eq]
+  refine C09_time_monotone_lastUsedT cfg _ ?_ i now now b (lift_get he)
+  intro j x y hx hy
+  rw [List.getElem?_map] at hx hy
+  obtain ⟨hj, hxe⟩ := List.getElem?_eq_some_iff.mp (Option.map_eq_some_iff.mp hx).choose_spec.1
+  obtain ⟨hj', hye⟩ := List.getElem?_eq_some_iff.mp (Option.map_eq_some_iff.mp hy).choose_spec.1
+  have hx2 := (Option.map_eq_some_iff.mp hx).choose_spec.2
+  have hy2 := (Option.map_eq_some_iff.mp hy).choose_spec.2
+  have := List.pairwise_iff_getElem.mp hmono j (j + 1) hj hj' (Nat.lt_succ_self j)
+  rw [hxe, hye] at this
+  rw [← hx2, ← hy2]
+  exact this
 
-/-- non-vacuity of `C09_time_monotone_lastUsed`: a sorted history whose state before call 1 has a free
-client; and why the hypothesis is needed: with the clock going backwards `lastUsed` exceeds `now`. -/
+/-- non-vacuity of `C09_time_monotone_lastUsed`; with the clock going backwards `lastUsed` exceeds `now`. -/
 example : ([(0, Body.ok), (3, .ok)] : List (Nat × Body)).Pairwise (fun a b => a.1 ≤ b.1) ∧
     (run ⟨1, 5⟩ {} ([(0, Body.ok), (3, .ok)].take 1)).1.free = [⟨0, some 0, 0⟩] ∧
     (run ⟨1, 5⟩ {} ([(4, Body.ok), (3, .ok)].take 1)).1.free = [⟨0, some 0, 4⟩] := by decide
 
+end instantaneous
 end Pooled
